@@ -7,6 +7,10 @@
 //! random networks with random schedules, an exhaustive enumeration of all reply orders and
 //! failure subsets of small networks, and a small wall-clock stream for the peer timeout.
 use crate::util::*;
+#[path = "c15_engine.rs"]
+mod engine;
+#[path = "gen_c15_dispatch.rs"]
+mod gen_dispatch;
 use litep2p::{
     protocol::libp2p::kademlia::{
         verif::{ConnectionType, KademliaMessage, KademliaPeer, Key, QueryAction, QueryEngine},
@@ -56,8 +60,13 @@ impl World {
         let t = Key::from(target_peer);
         a.sort_by_key(|p| t.distance(&Key::from(*p)));
         let mut b = peers.clone();
-        let t = Key::new(target_key.clone());
-        b.sort_by_key(|p| t.distance(&Key::from(*p)));
+        let t2 = Key::new(target_key.clone());
+        b.sort_by_key(|p| t2.distance(&Key::from(*p)));
+        // ranks stand for distances only if the order is strict (distinct peers, distinct distances)
+        let strict = |v: &Vec<PeerId>, d: &dyn Fn(&PeerId) -> litep2p::protocol::libp2p::kademlia::verif::Distance| {
+            v.windows(2).all(|w| d(&w[0]) < d(&w[1]))
+        };
+        assert!(strict(&a, &|p| t.distance(&Key::from(*p))) && strict(&b, &|p| t2.distance(&Key::from(*p))));
         let addrs = (0..NADDR as u16)
             .map(|i| format!("/ip4/10.0.0.{}/tcp/{}", i + 1, 1000 + i).parse().unwrap())
             .collect();
@@ -1049,6 +1058,14 @@ pub fn main(args: &Args) {
         stored = read_cases(Path::new(d));
     }
     for c in stored.iter() {
+        if c.first() == Some(&10) {
+            match catch_unwind(AssertUnwindSafe(|| engine::run_stored(&w, c))) {
+                Ok(Some((c2, t))) => out.emit(&c2, &t),
+                Ok(None) => out.emit(c, &[0]),
+                Err(_) => out.emit(c, &[PANIC_MARK]),
+            }
+            continue;
+        }
         if c.first() == Some(&9) {
             match catch_unwind(AssertUnwindSafe(|| run_stored_multi(&w, c))) {
                 Ok(Some((c2, t))) => out.emit(&c2, &t),
@@ -1062,6 +1079,13 @@ pub fn main(args: &Args) {
     }
     if args.str("replay").is_some() {
         return;
+    }
+
+    // stream 4: the whole engine, all query types and entry points (harness/src/c15_engine.rs)
+    if engine::targets_coincide(&w) {
+        engine::run(&w, &mut rng.fork(), &mut out, args.u64("engine", ncases / 3));
+    } else {
+        out.emit(&[10, 0, 0, 0, 0, 0, 0], &[0, 95]);
     }
 
     // stream 1: random networks, random schedules, noise
